@@ -19,7 +19,9 @@ Decl(lv, mode, i) ==
 Targets == << Or("t0", NoR), Or("t1", NoR), Or("t2", NoR), Or("t3", NoR), Or("t4", NoR), Or("t5", NoR) >>
 FamilyLang(rootHas, m) ==
   Language("org.verif.fam",
-    << Asset("R0", NONE, << LetV("vr", F("fr")) >>, << S("s", "or", <<"root">>, NoRisk, Bern(5), <<>>, NoX, IF rootHas THEN Ovr(<< St("t0") >>) ELSE NoR) >> \o Targets),
+    \* "s2" is declared exactly like "s" and never redefined below: it must stay as it is whatever happens to "s"
+    << Asset("R0", NONE, << LetV("vr", F("fr")) >>, << S("s", "or", <<"root">>, NoRisk, Bern(5), <<>>, NoX, IF rootHas THEN Ovr(<< St("t0") >>) ELSE NoR),
+                                                       S("s2", "or", <<"root">>, NoRisk, Bern(5), <<>>, NoX, IF rootHas THEN Ovr(<< St("t0") >>) ELSE NoR) >> \o Targets),
        Asset("R1", "R0", <<>>, Decl("R1", m[1], 1)),
        Asset("R2", "R1", <<>>, Decl("R2", m[2], 2)),
        Asset("R3", "R2", <<>>, Decl("R3", m[3], 3)),
